@@ -54,6 +54,42 @@ theorem metered_fill_history_dependent {κ α : Type} [DecidableEq κ] (f : Fill
   refine ⟨.read k (fun _ => .done ()), [.read k (fun _ => .done ())], ?_⟩
   simp [run, after, Table.read, Table.empty, Table.set, hm]
 
+/-- **Partial form used while the finding below stands.**  Cells with a metered fill path may exist
+(`bad`); every program that reads only the other cells is history independent. -/
+theorem history_independent_partial {κ α ρ : Type} [DecidableEq κ] (f : Fill κ α) (bad : κ → Prop)
+    (hu : ∀ k, ¬ bad k → f.fillCharges k = []) (p : Prog κ α ρ) (hp : ReadsOnly (fun k => ¬ bad k) p)
+    (h₁ h₂ : List (Prog κ α ρ)) :
+    (run f p (after f h₁ Table.empty)).charges = (run f p (after f h₂ Table.empty)).charges :=
+  (run_eq_on f (fun k => ¬ bad k) hu p hp _ _ (history_keeps_caches_consistent f h₁)
+    (history_keeps_caches_consistent f h₂)).1
+
+/-- **Known finding `vm-shared-string-constant-length-memo`, exhibited by the model.**  In the VM a string
+constant of a compiled program is one `*StringValue` shared by every execution that gets the program from
+the host's program cache; its grapheme length is a memo cell (`length < 0` = empty) filled by
+`StringValue.Length(gauge)`, which charges `GraphemesIteration` once per grapheme to the gauge of the
+execution that fills it.  Key = the constant, value = its length `n`: the first execution is charged `n`
+times, every later one nothing. -/
+theorem shared_string_constant_witness (n : Nat) (hn : 0 < n) :
+    let graphemes := Charge.comp 1010 1
+    let f : Fill Unit Nat := { init := fun _ => n, fillCharges := fun _ => List.replicate n graphemes }
+    let lengthOf : Prog Unit Nat Nat := .read () (fun len => .done len)
+    (run f lengthOf Table.empty).charges = List.replicate n graphemes ∧
+    (run f lengthOf (after f [lengthOf] Table.empty)).charges = [] ∧
+    (run f lengthOf Table.empty).charges ≠ (run f lengthOf (after f [lengthOf] Table.empty)).charges ∧
+    (run f lengthOf Table.empty).result = (run f lengthOf (after f [lengthOf] Table.empty)).result := by
+  intro graphemes f lengthOf
+  have h1 : (run f lengthOf Table.empty).charges = List.replicate n graphemes := by
+    simp [run, Table.read, Table.empty, f, lengthOf]
+  have h2 : (run f lengthOf (after f [lengthOf] Table.empty)).charges = [] := by
+    simp [run, after, Table.read, Table.empty, Table.set, f, lengthOf]
+  refine ⟨h1, h2, ?_, ?_⟩
+  · rw [h1, h2]
+    intro h
+    have := congrArg List.length h
+    simp at this
+    omega
+  · simp [run, after, Table.read, Table.empty, Table.set, f, lengthOf]
+
 /-- The repository instance: cache keys are (site number in the extracted inventory, sub-key); a site
 charges `cost` on a fill exactly when gen-cachefacts found a metering hit in a `cache`-class fill path. -/
 def repoFill (init : Nat × Nat → Nat) (cost : Nat × Nat → List Charge) : Fill (Nat × Nat) Nat :=
